@@ -263,6 +263,12 @@ def run(e: Engine, rep: Report):
              'search has succeeded, so what is left in the buffer starts a '
              'new command line (one line, one reply)')
     r715(e, rep)
+    rep.rule('R7.16', 'the reply a callback receives is made for this '
+             'command: never one of the canned module-level Reply objects '
+             '(validators answer by changing the reply they are given - on '
+             'a shared object the verdict sticks for every later command '
+             'and session)')
+    r716(e, rep)
     rep.floor('R7.1', 10, 'callback sites')
     rep.floor('R7.3', 12, 'command handlers')
     rep.floor('R7.4', 10, 'mutable reply sends')
@@ -1092,6 +1098,7 @@ def r78(e: Engine, rep: Report, rule: str = 'R7.8'):
 
 # ------------------------------------------------------------------ R7.11
 # names the server invokes on its own initiative only
+SESSION_CLASS = 'slimta.edge.smtp.SmtpSession'
 PROTECTED_NAMES = {'BANNER_': 'the greeting pseudo-command',
                    'HAVE_DATA': 'the message-received callback'}
 
@@ -1168,6 +1175,43 @@ def r711(e: Engine, rep: Report):
                   'with no MAIL / RCPT / DATA before it' % (name, what),
                   loc=fns[1].loc(), reason='%r not in the command alphabet '
                   '[%s]' % (outside[:1], shown))
+    # hooks the server runs on its own initiative (names it hands to
+    # _call_custom_handler itself and that are no client verb with a
+    # guarded _command_<NAME>): a handler class of the package that defines
+    # one under a spellable name can be driven by the client through the
+    # custom-command dispatch
+    srv = e.p.cls(SERVER)
+    own = set()
+    for m in srv.methods.values():
+        for x in walk_own(m.node):
+            if isinstance(x, ast.Call) and \
+                    isinstance(x.func, ast.Attribute) and \
+                    x.func.attr == '_call_custom_handler' and x.args and \
+                    isinstance(x.args[0], ast.Constant) and \
+                    isinstance(x.args[0].value, str):
+                nm = x.args[0].value
+                if ('_command_' + nm) not in srv.methods:
+                    own.add(nm)
+    for cq in [SESSION_CLASS] + list(e.p.subclasses(SESSION_CLASS)):
+        c = e.p.classes.get(cq)
+        if c is None:
+            continue
+        for nm in sorted(own):
+            if nm not in c.methods:
+                continue
+            rep.evaluations += 1
+            outside = [ch for ch in nm if ord(ch) not in alpha]
+            rep.check(bool(outside), 'R7.11', c.methods[nm].qname,
+                      'server-initiated hook `%s` cannot be spelled by a '
+                      'client' % nm,
+                      '%s defines the hook `%s`, which the server calls '
+                      'itself (end of session, after the handshake ...); '
+                      'the name is made of command-alphabet characters '
+                      'only, so the client line `%s` is dispatched to it '
+                      'as a custom command - in the middle of the session, '
+                      'with the wrong arguments' % (cq, nm, nm),
+                      loc=c.methods[nm].loc(),
+                      reason='%r not in the command alphabet' % outside[:1])
 
 
 # ------------------------------------------------------------------ R7.12
@@ -1249,7 +1293,7 @@ def _two_point(test, name, lo, hi):
     return tuple(out)
 
 
-def r715(e: Engine, rep: Report):
+def r715(e: Engine, rep: Report, rule: str = 'R7.15'):
     ctx = e.method_ctx('slimta.smtp.io.IO', 'recv_line')
     g = e.build(ctx, inline=e.inline_same_self(deny=['buffered_recv']),
                 max_depth=3, raises=lambda b, n, r: set())
@@ -1276,7 +1320,7 @@ def r715(e: Engine, rep: Report):
     rets = [n for n in g.of_kind('stmt') if isinstance(n.ast, ast.Return)
             and n.frame is g.entry.frame]
     if not found or not rets:
-        rep.unknown('R7.15', where, 'returns lie at a line end',
+        rep.unknown(rule, where, 'returns lie at a line end',
                     'cannot see how recv_line finds the end of a line',
                     loc=ctx.func.loc())
         return
@@ -1319,7 +1363,7 @@ def r715(e: Engine, rep: Report):
         w = dataflow.typestate_witness(
             g, (False, frozenset()), step,
             lambda n, st: n is r and not st[0])
-        rep.check(w is None, 'R7.15', where,
+        rep.check(w is None, rule, where,
                   '`%s` lies at a line end' % ' '.join(
                       ast.unparse(r.ast).split())[:40],
                   'recv_line returns here without having found the end of '
@@ -1328,3 +1372,50 @@ def r715(e: Engine, rep: Report):
                   'answered (or executed) a second time', loc=r.loc(),
                   reason='the line search has succeeded on every path here',
                   witness=dataflow.render_path(w, 12) if w else None)
+
+
+# ------------------------------------------------------------------ R7.16
+def r716(e: Engine, rep: Report):
+    from .c13 import _shared_reply_names
+    shared = _shared_reply_names(e, 'slimta.smtp.server')
+    srv = e.p.cls(SERVER)
+    n = 0
+    for mname, m in sorted(srv.methods.items()):
+        for x in walk_own(m.node):
+            if not (isinstance(x, ast.Call) and
+                    isinstance(x.func, ast.Attribute) and
+                    x.func.attr == '_call_custom_handler' and
+                    len(x.args) >= 2):
+                continue
+            n += 1
+            rep.evaluations += 1
+            rep.functions.add(m.qname)
+            a = x.args[1]
+            bad = None
+            if isinstance(a, ast.Name):
+                if a.id in shared and a.id not in m.params and not any(
+                        isinstance(y, ast.Name) and y.id == a.id and
+                        isinstance(y.ctx, ast.Store)
+                        for y in walk_own(m.node)):
+                    bad = a.id
+                else:
+                    for d in walk_own(m.node):
+                        if isinstance(d, ast.Assign) and any(
+                                isinstance(t, ast.Name) and t.id == a.id
+                                for t in d.targets) and \
+                                isinstance(d.value, ast.Name) and \
+                                d.value.id in shared:
+                            bad = d.value.id
+            rep.check(bad is None, 'R7.16', m.qname,
+                      'reply handed to the %s callback' % (
+                          x.args[0].value if isinstance(x.args[0],
+                                                        ast.Constant)
+                          else '<custom>'),
+                      'the callback is given `%s`, the one Reply object '
+                      'made at %s: a validator that answers 450 / 552 / 421 '
+                      'by changing it changes the default answer of every '
+                      'later command of this kind, in this and all later '
+                      'sessions' % (bad, shared.get(bad)), loc=m.loc(x),
+                      reason='a Reply made in this call (or a copy)')
+    if n < 8:
+        rep.error('anchor vanished: callback sites in Server (%d < 8)' % n)
